@@ -83,7 +83,14 @@ static size_t writeDelimiter(scpi_t * context) {
     if (context->output_count > 0) {
         return writeData(context, ",", 1);
     } else {
-        return 0;
+        size_t result = 0;
+        /* first result of this unit - separate it from the response of an earlier unit */
+        if (context->unit_separator_pending) {
+            context->unit_separator_pending = FALSE;
+            result = writeData(context, ";", 1);
+        }
+        context->first_output = FALSE;
+        return result;
     }
 }
 
@@ -127,12 +134,9 @@ static scpi_bool_t processCommand(scpi_t * context) {
     const scpi_command_t * cmd = context->param_list.cmd;
     lex_state_t * state = &context->param_list.lex_state;
     scpi_bool_t result = TRUE;
-    scpi_bool_t is_query = context->param_list.cmd_raw.data[context->param_list.cmd_raw.length - 1] == '?';
 
-    /* conditionally write ; */
-    if(!context->first_output && is_query) {
-        writeData(context, ";", 1);
-    }
+    /* ; is written together with the first result of this unit, if there is any */
+    context->unit_separator_pending = !context->first_output;
 
     context->cmd_error = FALSE;
     context->output_count = 0;
@@ -149,13 +153,10 @@ static scpi_bool_t processCommand(scpi_t * context) {
         } else {
             if (context->cmd_error) {
                 result = FALSE;
-            } else {
-                if(context->first_output && is_query) {
-                    context->first_output = FALSE;
-                }
             }
         }
     }
+    context->unit_separator_pending = FALSE;
 
     /* set error if command callback did not read all parameters */
     if (state->pos < (state->buffer + state->len) && !context->cmd_error) {
